@@ -1131,6 +1131,10 @@ class Engine:
             raise Undecided(f"mutator .{attr} on {type(recv).__name__}", line)
         if isinstance(recv, VSeq) and attr == "copy":
             return recv
+        if isinstance(recv, VStr) and attr in ("expandtabs", "strip", "rstrip", "lstrip", "lower", "upper", "replace", "format", "join", "title", "capitalize", "zfill", "center", "ljust", "rjust"):
+            # str -> str methods whose result is not interpreted: an unconstrained string (over-approximation)
+            self.assumptions.add(f"uninterpreted: str.{attr} returns some str")
+            return VStr(self.uf(f"str_{attr}", [STR] + [t.sort() for a in args for t in self.flatten(a)], STR)(recv.t, *[t for a in args for t in self.flatten(a)]))
         raise Undecided(f"method .{attr} on {type(recv).__name__} has no model", line)
 
     # ------------------------------------------------------------------ statements
@@ -1143,6 +1147,12 @@ class Engine:
             env[target.id] = val
         elif isinstance(target, (ast.Tuple, ast.List)):
             if any(isinstance(t, ast.Starred) for t in target.elts):
+                if self.unit.lenient:
+                    for n_ in ast.walk(target):
+                        if isinstance(n_, ast.Name):
+                            env[n_.id] = VObj(fresh("havoc", OBJ))
+                    self.havocked.add(f"L{line}: starred unpacking target")
+                    return
                 raise Undecided("starred unpacking", line)
             if isinstance(val, VTuple):
                 items = val.items
@@ -1165,6 +1175,14 @@ class Engine:
             raise Undecided("subscript store", line)
         else:
             raise Undecided(f"assign target {ast.unparse(target)[:40]}", line)
+
+    def event(self, name, value, env, pc, line):
+        """ghost event (e.g. a file write): recorded, and the unit's event_ensures are obligations at that point"""
+        self.events.append((name, value, list(pc), line))
+        eenv = self.with_ghost(self.unit, dict(env))
+        eenv["value"] = value
+        for label, expr in self.unit.event_ensures:
+            self.oblige("event", f"{name}:{label}", pc, self.spec(expr, eenv, pc), line)
 
     def flush_pending(self, env, outs):
         for exc, pc_, line in self.pending:
@@ -1312,8 +1330,15 @@ class Engine:
             env[st.name] = VFunc(st.name)
             return [Outcome("fall", env, pc)]
         if isinstance(st, ast.With):
-            h = self.unit.stmt_hooks.get("With")
-            raise Undecided("with statement", st.lineno)
+            # context managers are modelled by the value of the context expression (hooks); __exit__ is assumed not to
+            # suppress exceptions and to have no effect on the verified state
+            for item in st.items:
+                v = self.ev(item.context_expr, env, pc)
+                self.flush_pending(env, outs)
+                if item.optional_vars is not None:
+                    self.assign(item.optional_vars, v, env, pc, st.lineno)
+            self.assumptions.add("with statements: __enter__ yields the context value, __exit__ neither suppresses exceptions nor changes the verified state")
+            return outs + self.run(st.body, env, pc)
         raise Undecided(f"stmt {type(st).__name__}", st.lineno)
 
     def feasible(self, pc):
